@@ -26,11 +26,12 @@ type beDesc struct {
 }
 
 type chunkDesc struct {
-	secs     int
-	ops      []string
-	palCls   []string
-	model    *chunkModel
-	entities []beDesc
+	secs        int
+	ops         []string
+	palCls      []string
+	model       *chunkModel
+	entities    []beDesc
+	maxDistinct int // the greatest number of distinct states a section holds at the end of its history
 }
 
 func (d *chunkDesc) wit() any {
@@ -67,6 +68,21 @@ func buildChunk(r *vm.Rand, secs int, maxDistinct int) (*level.Chunk, *chunkDesc
 				vals[i] = r.Intn(nStates)
 			}
 		}
+		if cls > 256 {
+			// the draws above repeat themselves (three airs, fifty last states): 320 of them are some 210 distinct
+			// states, which never leaves the 8-bit palette. Here the candidates are made pairwise distinct, so that
+			// the section really holds more than 256 states (direct ids in memory, no palette in the save form)
+			taken := map[int]bool{}
+			for i := range vals {
+				for i >= 3 && taken[vals[i]] {
+					vals[i] = r.Intn(nStates)
+				}
+				if i < 3 {
+					vals[i] = airStates()[i]
+				}
+				taken[vals[i]] = true
+			}
+		}
 		nset := 0
 		if cls > 1 {
 			nset = r.Range(cls, cls*3+20)
@@ -78,6 +94,13 @@ func buildChunk(r *vm.Rand, secs int, maxDistinct int) (*level.Chunk, *chunkDesc
 			d.model.blocks[si][i] = v
 		}
 		d.palCls = append(d.palCls, fmt.Sprintf("s%d:%d-values", si, cls))
+		{
+			dist := map[int]bool{}
+			for _, v := range d.model.blocks[si] {
+				dist[v] = true
+			}
+			d.maxDistinct = max(d.maxDistinct, len(dist))
+		}
 		d.ops = append(d.ops, fmt.Sprintf("section %d: %d SetBlock over %d candidate states", si, nset, cls))
 		// biomes
 		bcls := []int{1, 2, 3, 4, 5, 8, 9, 30}[r.Intn(8)]
@@ -107,7 +130,15 @@ func buildChunk(r *vm.Rand, secs int, maxDistinct int) (*level.Chunk, *chunkDesc
 			d.model.hm[k][hi] = hv
 		}
 	}
+	// 0..3 mostly; 6 is more than any used receiver holds (reuse of its elements, then append, in one read);
+	// 130 makes the VarInt count two bytes long
 	nbe := r.Intn(4)
+	switch r.Intn(12) {
+	case 0, 1:
+		nbe = 6
+	case 2:
+		nbe = 130
+	}
 	for j := 0; j < nbe; j++ {
 		var be level.BlockEntity
 		bd := beDesc{x: r.Intn(16), z: r.Intn(16), y: r.Intn(384) - 64, typ: r.Intn(30)}
@@ -194,35 +225,66 @@ func diffClass(d string) string {
 	return d
 }
 
-func checkNetwork(c *vm.Ctx, r *vm.Rand, ch *level.Chunk, d *chunkDesc) {
+// checkNetwork writes ch in network form, reads the bytes with the monitor's own reader and with the library into a
+// fresh or used chunk, compares, and keeps editing the received chunk. With chain set the received chunk is also
+// converted to the save form and back (checkSave), so that the save pipeline sees a chunk that came off the wire.
+func checkNetwork(c *vm.Ctx, r *vm.Rand, ch *level.Chunk, d *chunkDesc, chain bool) bool {
 	var buf bytes.Buffer
 	var wn int64
 	var err error
 	if c.Guard("net/write", d.wit, func() { wn, err = ch.WriteTo(&buf) }) {
-		return
+		return false
 	}
 	if err != nil || wn != int64(buf.Len()) {
 		c.Violation("net/write-count", fmt.Sprintf("Chunk.WriteTo n=%d err=%v, %d bytes produced", wn, err, buf.Len()), d.wit())
-		return
+		return false
 	}
 	if !wireMatchesModel(c, buf.Bytes(), ch, d) {
-		return
+		return false
 	}
 	dst := level.EmptyChunk(d.secs)
 	former := make([][]int, d.secs) // states the receiving chunk held before the read
+	var dstHM [6][]int              // height-map entries the receiving chunk held before the read
+	for k := range dstHM {
+		dstHM[k] = make([]int, 256)
+	}
 	if r.Bool() {
-		// a previously used chunk (20..250 distinct states per section: every indirect palette width)
+		// a previously used chunk (3..250 distinct states per section: every indirect palette width; 300: direct ids)
 		for si := range dst.Sections {
-			for j := []int{3, 20, 40, 100, 250}[r.Intn(5)]; j > 0; j-- {
+			for j := []int{3, 20, 40, 100, 250, 300}[r.Intn(6)]; j > 0; j-- {
 				v := r.Intn(nStates)
 				former[si] = append(former[si], v)
 				dst.Sections[si].SetBlock(r.Intn(4096), level.BlocksState(v))
 			}
 		}
-		dst.BlockEntity = make([]level.BlockEntity, 5)
-		for i := range dst.BlockEntity { // entities the receiver held before, with data of their own
-			dst.BlockEntity[i] = level.BlockEntity{XZ: int8(i), Y: int16(100 + i), Type: 3,
+		// biomes, height maps (all six: the read replaces two of them) and with them whatever BlockCount the Sets left
+		for si := range dst.Sections {
+			for j := []int{0, 1, 3, 12, 40}[r.Intn(5)]; j > 0; j-- {
+				dst.Sections[si].Biomes.Set(r.Intn(64), level.BiomesState(r.Intn(nBiomes)))
+			}
+		}
+		for k, hm := range hms(dst) {
+			for j := r.Intn(30); j > 0; j-- {
+				hi, hv := r.Intn(256), r.Intn(d.secs*16+1)
+				hm.Set(hi, hv)
+				dstHM[k][hi] = hv
+			}
+		}
+		// entities the receiver held before, with data of their own: 1, 2 or 5 of them, sometimes with three more
+		// behind the slice's length (a list that was longer once)
+		stale := []int{1, 2, 5}[r.Intn(3)]
+		hidden := []int{0, 0, 3}[r.Intn(3)]
+		held := make([]level.BlockEntity, stale+hidden)
+		for i := range held {
+			held[i] = level.BlockEntity{XZ: int8(i), Y: int16(100 + i), Type: 3,
 				Data: nbt.RawMessage{Type: nbt.TagCompound, Data: refnbt.EncodePayload(&refnbt.Value{Tag: refnbt.Compound, Comp: []refnbt.Entry{{Name: "stale", V: refnbt.In(int32(i))}}})}}
+		}
+		dst.BlockEntity = held[:stale]
+		d.ops = append(d.ops, fmt.Sprintf("network receiver: a used chunk holding %d block entities (capacity %d), biome and height-map entries", stale, stale+hidden))
+		if in := len(ch.BlockEntity); in > stale+hidden {
+			c.Cover("net.entities.reuse-then-append")
+		} else if in > 0 {
+			c.Cover("net.entities.all-reused")
 		}
 		c.Cover("net.into-used-chunk")
 	} else {
@@ -232,15 +294,15 @@ func checkNetwork(c *vm.Ctx, r *vm.Rand, ch *level.Chunk, d *chunkDesc) {
 	rd := bytes.NewReader(in)
 	var rn int64
 	if c.Guard("net/read", d.wit, func() { rn, err = dst.ReadFrom(rd) }) {
-		return
+		return false
 	}
 	if err != nil {
 		c.Violation("net/read-error", "reading a chunk the library wrote failed: "+err.Error(), d.wit())
-		return
+		return false
 	}
 	if rn != int64(buf.Len()) || rd.Len() != 4 {
 		c.Violation("net/read-count", fmt.Sprintf("Chunk.ReadFrom returned n=%d and left %d bytes unread; the chunk is %d bytes followed by 4", rn, rd.Len(), buf.Len()), d.wit())
-		return
+		return false
 	}
 	ok := true
 	c.Guard("net/compare", d.wit, func() {
@@ -276,19 +338,50 @@ func checkNetwork(c *vm.Ctx, r *vm.Rand, ch *level.Chunk, d *chunkDesc) {
 		if len(ch.BlockEntity) > 0 {
 			c.Cover("net.with-block-entities")
 		}
+		if len(ch.BlockEntity) >= 128 {
+			c.Cover("net.entities.two-byte-count")
+		}
 	}
 	if !ok {
-		return
+		return false
+	}
+	if chain {
+		// the received chunk goes on into the save pipeline. What it must hold: the blocks and biomes of the
+		// source, the two height maps the network form carries, and for the other four whatever the receiver had
+		dm := &chunkModel{blocks: d.model.blocks, biomes: d.model.biomes, hbits: d.model.hbits}
+		for k := range dm.hm {
+			dm.hm[k] = dstHM[k]
+		}
+		dm.hm[1], dm.hm[4] = d.model.hm[1], d.model.hm[4]
+		dd := &chunkDesc{secs: d.secs, palCls: d.palCls, model: dm, entities: d.entities,
+			ops: append(append([]string{}, d.ops...), "the chunk converted below is the one Chunk.ReadFrom filled from the network form of the chunk above")}
+		if checkSave(c, r, dst, dd, c.Thorough() || r.Intn(3) == 0, false) {
+			c.Cover("chain.net-then-save")
+		}
 	}
 	// the received chunk keeps being edited: states it held before the read, states it received, air and new ones.
 	// Every position must then hold what was last set and the block count must equal the number of non-air blocks.
-	c.Guard("net/edit-after-read", d.wit, func() {
-		for si := range dst.Sections {
-			sec := &dst.Sections[si]
-			model := make([]int, 4096)
+	if !editAndRecount(c, r, dst, d, former, "net/edit-after-read", "reading the chunk") {
+		return false
+	}
+	if len(former[0]) > 0 {
+		c.Cover("net.edit-after-read.used-receiver")
+	} else {
+		c.Cover("net.edit-after-read.fresh-receiver")
+	}
+	return true
+}
+
+// editAndRecount applies 40 SetBlock calls to every section of tgt, which is expected to hold d.model.blocks (it was
+// obtained by the conversion named in after), and then reads every position and recounts.
+func editAndRecount(c *vm.Ctx, r *vm.Rand, tgt *level.Chunk, d *chunkDesc, former [][]int, sig, after string) bool {
+	ok := true
+	if c.Guard(sig, d.wit, func() {
+		for si := range tgt.Sections {
+			sec := &tgt.Sections[si]
+			model := append([]int{}, d.model.blocks[si]...)
 			var received []int
 			for i := range model {
-				model[i] = int(ch.Sections[si].GetBlock(i))
 				if i%97 == 0 {
 					received = append(received, model[i])
 				}
@@ -316,7 +409,8 @@ func checkNetwork(c *vm.Ctx, r *vm.Rand, ch *level.Chunk, d *chunkDesc) {
 				if got := int(sec.GetBlock(i)); got != want {
 					w := d.wit().(map[string]any)
 					w["section"], w["edits_after_read"], w["receiver_was_used"] = si, ops, len(former[si]) > 0
-					c.Violation("net/edit-after-read/block", fmt.Sprintf("section %d: after reading the chunk and %d SetBlock calls, GetBlock(%d)=%d, last set/received value is %d", si, len(ops), i, got, want), w)
+					c.Violation(sig+"/block", fmt.Sprintf("section %d: after %s and %d SetBlock calls, GetBlock(%d)=%d, last set/received value is %d", si, after, len(ops), i, got, want), w)
+					ok = false
 					return
 				}
 				if !refIsAir(block.StateID(want)) {
@@ -326,16 +420,15 @@ func checkNetwork(c *vm.Ctx, r *vm.Rand, ch *level.Chunk, d *chunkDesc) {
 			if int(sec.BlockCount) != nonAir {
 				w := d.wit().(map[string]any)
 				w["section"], w["edits_after_read"] = si, ops
-				c.Violation("net/edit-after-read/block-count", fmt.Sprintf("section %d: BlockCount=%d, the section holds %d non-air blocks", si, sec.BlockCount, nonAir), w)
+				c.Violation(sig+"/block-count", fmt.Sprintf("section %d: after %s and %d SetBlock calls BlockCount=%d, the section holds %d non-air blocks", si, after, len(ops), sec.BlockCount, nonAir), w)
+				ok = false
 				return
 			}
 		}
-		if len(former[0]) > 0 {
-			c.Cover("net.edit-after-read.used-receiver")
-		} else {
-			c.Cover("net.edit-after-read.fresh-receiver")
-		}
-	})
+	}) {
+		return false
+	}
+	return ok
 }
 
 var hmNames = []string{"WORLD_SURFACE_WG", "WORLD_SURFACE", "OCEAN_FLOOR_WG", "OCEAN_FLOOR", "MOTION_BLOCKING", "MOTION_BLOCKING_NO_LEAVES"}
@@ -346,7 +439,9 @@ func hms(c *level.Chunk) []*level.BitStorage {
 
 var usedSave = map[int]*save.Chunk{}
 
-func checkSave(c *vm.Ctx, r *vm.Rand, ch *level.Chunk, d *chunkDesc, throughFile bool) {
+// checkSave converts ch to the save form (optionally through the file image) and back. With chain set the chunk that
+// came back is also sent through the network pipeline (checkNetwork). In every case it is edited afterwards.
+func checkSave(c *vm.Ctx, r *vm.Rand, ch *level.Chunk, d *chunkDesc, throughFile, chain bool) bool {
 	var s save.Chunk
 	// a program that saves chunk after chunk may well reuse one save.Chunk: half of the conversions go into the
 	// value the previous chunk with the same number of sections was converted into
@@ -359,18 +454,18 @@ func checkSave(c *vm.Ctx, r *vm.Rand, ch *level.Chunk, d *chunkDesc, throughFile
 	s.XPos, s.ZPos = int32(r.Intn(100)-50), int32(r.Intn(100)-50)
 	var err error
 	if c.Guard("save/to", d.wit, func() { err = level.ChunkToSave(ch, &s) }) {
-		return
+		return false
 	}
 	if err != nil {
 		c.Violation("save/to-error", "ChunkToSave failed: "+err.Error(), d.wit())
-		return
+		return false
 	}
 	{
 		keep := s // shallow copy: shares Sections and maps with s, as a reused value would
 		usedSave[d.secs] = &keep
 	}
 	if !saveMatchesModel(c, &s, ch, d, "after ChunkToSave") {
-		return
+		return false
 	}
 	if throughFile {
 		// the carrier fields of a chunk that never came from disk are zero RawMessages, which have no
@@ -381,36 +476,36 @@ func checkSave(c *vm.Ctx, r *vm.Rand, ch *level.Chunk, d *chunkDesc, throughFile
 		comp := byte(r.Range(1, 3))
 		var data []byte
 		if c.Guard("save/data", d.wit, func() { data, err = s.Data(comp) }) {
-			return
+			return false
 		}
 		if err != nil {
 			c.Violation("save/data-error", "save.Chunk.Data failed: "+err.Error(), d.wit())
-			return
+			return false
 		}
 		var s2 save.Chunk
 		if c.Guard("save/load", d.wit, func() { err = s2.Load(data) }) {
-			return
+			return false
 		}
 		if err != nil {
 			c.Violation("save/load-error", "save.Chunk.Load of the library's own Data() failed: "+err.Error(), d.wit())
-			return
+			return false
 		}
 		s = s2
 		if !saveMatchesModel(c, &s, ch, d, "after Data and Load") {
-			return
+			return false
 		}
 		c.Cover(fmt.Sprintf("save.through-file.compression%d", comp))
 	}
 	var back *level.Chunk
 	if c.Guard("save/from", d.wit, func() { back, err = level.ChunkFromSave(&s) }) {
-		return
+		return false
 	}
 	if err != nil {
 		c.Violation("save/from-error/"+vm.NormErr(err.Error()), "ChunkFromSave of the library's own save form failed: "+err.Error(), d.wit())
-		return
+		return false
 	}
 	ok := true
-	c.Guard("save/compare", d.wit, func() {
+	if c.Guard("save/compare", d.wit, func() {
 		if df := compareSections(ch, back, false, true); df != "" {
 			c.Violation("save/content/"+diffClass(df), "save round trip changed the chunk: "+df, d.wit())
 			ok = false
@@ -449,10 +544,25 @@ func checkSave(c *vm.Ctx, r *vm.Rand, ch *level.Chunk, d *chunkDesc, throughFile
 				return
 			}
 		}
-	})
-	if ok {
-		c.Cover("save.roundtrip")
+	}) || !ok {
+		return false
 	}
+	c.Cover("save.roundtrip")
+	if chain {
+		// the chunk that came back from the save form goes on into the network pipeline. ChunkToSave writes no
+		// block entities, so it has none
+		db := &chunkDesc{secs: d.secs, palCls: d.palCls, model: d.model,
+			ops: append(append([]string{}, d.ops...), "the chunk sent below is the one ChunkFromSave returned for the save form of the chunk above")}
+		if len(back.BlockEntity) == 0 && checkNetwork(c, r, back, db, false) {
+			c.Cover("chain.save-then-net")
+		}
+	}
+	// sections that came from the save form keep being edited (their BlockCount was recounted by ChunkFromSave)
+	if !editAndRecount(c, r, back, d, make([][]int, d.secs), "save/edit-after-load", "ChunkFromSave") {
+		return false
+	}
+	c.Cover("save.edit-after-load")
+	return true
 }
 
 // registry: StateList <-> ToStateID bijection, and the save-form (name, properties) mapping.
@@ -466,7 +576,7 @@ func checkRegistry(c *vm.Ctx) {
 			}
 		}
 		c.Cover("registry.tostateid-all")
-		seen := map[string]int{}
+		seen, seenFile := map[string]int{}, map[string]int{}
 		// 255 states (+ the air default = 256 palette entries) per section so that the 8-bit hash palette is used; 24 sections per chunk
 		for base := 0; base < nStates; base += 24 * 255 {
 			secs := 24
@@ -490,6 +600,28 @@ func checkRegistry(c *vm.Ctx) {
 				c.Violation("registry/from-save-error", err.Error(), map[string]any{"base": base})
 				return
 			}
+			// the same states through the file image: every properties compound is encoded by Data and decoded by Load
+			emptyList := nbt.RawMessage{Type: nbt.TagList, Data: []byte{0, 0, 0, 0, 0}}
+			sv.BlockTicks, sv.FluidTicks, sv.PostProcessing, sv.Structures = emptyList, emptyList, emptyList, nbt.RawMessage{Type: nbt.TagCompound, Data: []byte{0}}
+			data, err := sv.Data(1)
+			if err != nil {
+				c.Violation("registry/file/data-error", "save.Chunk.Data failed: "+err.Error(), map[string]any{"base": base})
+				return
+			}
+			var sv2 save.Chunk
+			if err := sv2.Load(data); err != nil {
+				c.Violation("registry/file/load-error", "save.Chunk.Load of the library's own Data() failed: "+err.Error(), map[string]any{"base": base})
+				return
+			}
+			back2, err := level.ChunkFromSave(&sv2)
+			if err != nil {
+				c.Violation("registry/file/from-save-error", err.Error(), map[string]any{"base": base})
+				return
+			}
+			if len(sv2.Sections) != secs || len(back2.Sections) != secs {
+				c.Violation("registry/file/section-count", fmt.Sprintf("%d sections became %d in the loaded save form and %d in the chunk", secs, len(sv2.Sections), len(back2.Sections)), map[string]any{"base": base})
+				return
+			}
 			for si := 0; si < secs; si++ {
 				for j := 0; j < 255; j++ {
 					s := base + si*255 + j
@@ -500,6 +632,19 @@ func checkRegistry(c *vm.Ctx) {
 						c.Violation("registry/save-form-maps-elsewhere", fmt.Sprintf("state %d (%s) written to the save form and read back is state %d", s, block.StateList[s].ID(), got), map[string]any{"state": s})
 						return
 					}
+					if got := int(back2.Sections[si].GetBlock(j*16 + j%16)); got != s {
+						c.Violation("registry/file/save-form-maps-elsewhere", fmt.Sprintf("state %d (%s) written to the save form, through Data and Load, and read back is state %d", s, block.StateList[s].ID(), got), map[string]any{"state": s, "name": block.StateList[s].ID()})
+						return
+					}
+				}
+				// (name, properties) pairs as they come out of the file image
+				for pi, p := range sv2.Sections[si].BlockStates.Palette {
+					pc, perr := propsCanon(p)
+					if perr != nil {
+						c.Violation("registry/file/properties-malformed", fmt.Sprintf("palette entry %d of section %d after Data and Load: %v", pi, si, perr), map[string]any{"name": p.Name})
+						return
+					}
+					seenFile[p.Name+pc] = 1
 				}
 				// injectivity of (name, properties) over the palette entries of this section
 				for pi, p := range sv.Sections[si].BlockStates.Palette {
@@ -522,6 +667,11 @@ func checkRegistry(c *vm.Ctx) {
 			return
 		}
 		c.Cover("registry.save-form-bijective")
+		if len(seenFile) < nStates {
+			c.Violation("registry/file/name-properties-not-injective", fmt.Sprintf("%d states produced only %d distinct (name, properties) pairs after Data and Load", nStates, len(seenFile)), nil)
+			return
+		}
+		c.Cover("registry.through-file")
 		c.Note("registry_states_checked", nStates)
 	})
 }
@@ -684,12 +834,16 @@ func run(c *vm.Ctx) {
 		ch, d := buildChunk(r, secs, 320)
 		c.Eval(vm.HashStr("chunk", fmt.Sprint(c.Shard, i, secs)), true)
 		c.Cover(fmt.Sprintf("chunk.sections=%d", secs))
+		switch {
+		case d.maxDistinct > 256:
+			c.Cover("chunk.section-with-more-than-256-states")
+		}
 		if !sourceMatchesModel(c, ch, d) {
 			continue
 		}
-		checkNetwork(c, r, ch, d)
+		checkNetwork(c, r, ch, d, true)
 		// the save form: sections holding more than 256 distinct states use direct ids in memory
-		checkSave(c, r, ch, d, c.Thorough() || i%4 == 0)
+		checkSave(c, r, ch, d, c.Thorough() || i%4 == 0, true)
 		if i < 1 {
 			c.Sample("chunk", d.wit())
 		}
